@@ -29,7 +29,17 @@ bool makeInitial(const json& src, NifFile& nif, Ctx& ctx, std::string* fileBytes
 		return true;
 	}
 	if (src.contains("synth")) return synthInitial(src["synth"], nif, ctx);
-	if (src.contains("builder")) return builderInitial(src["builder"], nif, ctx);
+	if (src.contains("builder")) {
+		if (!builderInitial(src["builder"], nif, ctx)) return false;
+		if (jbool(src, "settle", false)) {
+			// bring the constructed model into its stored normal form (what a file would hold): save, forget, load
+			SaveOut so = saveNif(nif, SaveSpec());
+			if (so.rc != 0) return false;
+			if (fileBytes) *fileBytes = so.bytes;
+			return loadNif(nif, so.bytes).rc == 0;
+		}
+		return true;
+	}
 	return false;
 }
 
